@@ -61,7 +61,7 @@ PROPS = {
    'assumptions': ['grants and voting powers are non-negative (unsigned on the wire); InitialBlockReward >= 0 (Params.Validate)'],
  },
  'C13': {'runs': locking('C13', blocks=16), 'monitor_props': ['C13'], 'rule': LOCKING_RULE + '; max-validators 1..5; the REAL cometbft ValidatorSet.UpdateWithChangeSet is the acceptance oracle',
-         'partial': 'C13_refines is proved under the ranking/set well-formedness hypotheses; preservation of those invariants by every operation is checked on every history by the model comparison (ranking, index, set components) and the CometBFT oracle, the inductive Coq proof of preservation is in progress',
+         'partial': 'C13_reachable_ranking / C13_reachable_refines hold for every history of block operations from the empty state (ranking well formed, recorded set names existing validators, Active validators are members; proved by invariant preservation over all operations); the one remaining hypothesis of the refinement is that no Pending validator is still recorded in the set (a validator jailed in a block cannot be unjailed in that same block: a timing argument over block times, evaluated on every history through EndBlocker succeeding and the CometBFT oracle, not yet a Coq theorem); top-K optimality of the walk is checked by the monitor',
          'assumptions': ['total voting power stays below MaxInt64/8 and validator power does not wrap uint64 (known finding C13 power-overflow)', 'at least one validator stays in the set (CometBFT refuses to empty the set; environment assumption)']},
  'C14': {
    'runs': locking('C14', blocks=18),
@@ -103,7 +103,7 @@ PROPS = {
          'rule': LOCKING_RULE + ' ; ' + BRIDGE_RULE + ' ; after every successful end-block (locking) / at random points and at the end (bridge) the real ExportGenesis output goes through JSON, GenesisState.Validate and the real InitGenesis of a fresh keeper set; compared: second export, every key/value of the module stores (primary and derived collections), validators returned to CometBFT vs ActiveValidators; application level: ExportAppStateAndValidators -> InitChain of a fresh application -> validators, second export',
          'assumptions': ['a collections.Sequence never written reads as 0 and InitGenesis writes the 0: treated as equal', 'zero-valued slashed totals read as zero whether present or absent: treated as equal',
                          'relayer boarding queues are compared as multisets: InitGenesis rebuilds them from the voter records in address order while the running chain keeps request order; no query exposes the queue and the property asks for the same invariants (observation recorded in DESIGN.md)'],
-         'partial': 'Coq theorems cover the locking module (the one with derived collections and validator hand-over); derived_ok / set_ok of every reached model state is evaluated in the correspondence run (components 15, 16), their inductive preservation proof is in progress; relayer and bitcoin round trips are decided by the differential run only'},
+         'partial': 'Coq theorems cover the locking module (the one with derived collections and validator hand-over), for every reachable block-boundary state (C18_reachable_round_trip, invariants proved preserved by every operation); relayer and bitcoin round trips are decided by the differential run only'},
  'C19': {'runs': runs([{'family': 'fuzz', 'bin': 'ah', 'n': 160, 'shards': 1}, {'family': 'goatblock', 'bin': 'ah', 'n': 150, 'shards': 1, 'tag': '3', 'seed_off': 11}, {'family': 'bridge', 'n': 100, 'shards': 16, 'param': 'proj=C19,ops=45', 'tag': '1'}, {'family': 'locking', 'n': 100, 'shards': 16, 'param': 'proj=C19,blocks=12', 'tag': '2'}],
                       [{'family': 'fuzz', 'bin': 'ah', 'n': 4000, 'shards': 4}, {'family': 'goatblock', 'bin': 'ah', 'n': 2000, 'shards': 4, 'tag': '3', 'seed_off': 11}, {'family': 'bridge', 'n': 2500, 'shards': 64, 'param': 'proj=C19,ops=70', 'tag': '1'}, {'family': 'locking', 'n': 2500, 'shards': 64, 'param': 'proj=C19,blocks=24', 'tag': '2'}]),
          'monitor_props': ['C19'],
